@@ -498,6 +498,31 @@ static void sub_exhaustive() {
 }
 
 //---------------------------------------------------------------------------
+// sub: mixprec -- a single-precision block matrix applied to DOUBLE precision scalar vectors (the combination a float
+// hierarchy under a double solver produces).  Integer-valued data: every product and sum is exact in float and double, so
+// the result must equal the integer value of alpha A x + beta y (resp. f - A x) exactly.
+// (added after a seeded change in the scalar -> block reinterpretation of vectors was missed)
+//---------------------------------------------------------------------------
+template <int b> void mixprec_case(long idx, long rep, const std::string &tn) {
+    typedef static_matrix<float, b, b> FB; Rng r(vf::case_seed("mixprec", idx)); size_t n = 1 + r.range(0, rep % 2 ? 40 : 8), m = r.coin() ? n : 1 + r.range(0, 12);
+    std::vector<ptrdiff_t> ptr(1, 0), col; std::vector<FB> val; double dens = r.pick(std::vector<double>{0.2, 0.5, 1.0});
+    for (size_t i = 0; i < n; ++i) { for (size_t j = 0; j < m; ++j) if (r.coin(dens)) { col.push_back(j); FB v; for (int p = 0; p < b * b; ++p) v(p) = (float)r.range(-3, 3); val.push_back(v); } ptr.push_back(col.size()); }
+    backend::crs<FB> M(n, m, ptr, col, val);
+    Case c("mixprec", idx, J().s("type", tn).n("n", n).n("m", m).n("nnz", col.size()).n("threads", omp_get_max_threads()));
+    std::vector<double> x(m * b), y0(n * b), f(n * b); for (auto &v : x) v = (double)r.range(-4, 4); for (auto &v : y0) v = (double)r.range(-4, 4); for (auto &v : f) v = (double)r.range(-4, 4);
+    std::vector<long> Ax(n * b, 0); for (size_t i = 0; i < n; ++i) for (auto j = ptr[i]; j < ptr[i + 1]; ++j) for (int p = 0; p < b; ++p) for (int q = 0; q < b; ++q) Ax[i * b + p] += (long)val[j](p, q) * (long)x[col[j] * b + q];
+    for (int k = 0; k < 4; ++k) { double a = (double)r.range(-2, 2), bb = k < 2 ? 0.0 : (double)r.range(-2, 2);
+        backend::numa_vector<double> X(x), Y(y0); if (bb == 0.0 && k == 1) for (size_t i = 0; i < n * b; ++i) Y[i] = std::numeric_limits<double>::quiet_NaN();
+        backend::spmv(a, M, X, bb, Y); bool ok = true; for (size_t i = 0; i < n * b; ++i) { double ref = a * (double)Ax[i] + (bb == 0.0 ? 0.0 : bb * y0[i]); if (!(Y[i] == ref)) ok = false; }
+        c.check(ok, "mixprec:spmv:float-block-matrix-double-scalar-vectors", "spmv of a float block matrix with double scalar vectors differs from alpha A x + beta y (exact integer data)");
+        std::vector<double> xs = x, ys = y0; backend::spmv(a, M, xs, bb == 0.0 ? 0.0 : bb, ys); ok = true; for (size_t i = 0; i < n * b; ++i) { double ref = a * (double)Ax[i] + (bb == 0.0 ? 0.0 : bb * y0[i]); if (!(ys[i] == ref)) ok = false; }
+        c.check(ok, "mixprec:spmv:float-block-matrix-double-std-vectors", "spmv of a float block matrix with std::vector<double> differs from alpha A x + beta y (exact integer data)"); }
+    { backend::numa_vector<double> X(x), F(f), R(n * b); backend::residual(F, M, X, R); bool ok = true; for (size_t i = 0; i < n * b; ++i) if (!(R[i] == f[i] - (double)Ax[i])) ok = false;
+      c.check(ok, "mixprec:residual:float-block-matrix-double-scalar-vectors", "residual of a float block matrix with double scalar vectors differs from f - A x (exact integer data)"); }
+    if (!col.empty()) c.nontrivial(); vf::obs_sum("mixed_precision_block_calls", 9);
+}
+
+//---------------------------------------------------------------------------
 // dispatch
 //---------------------------------------------------------------------------
 typedef void (*casefn)(long, long, const std::string &);
@@ -543,6 +568,8 @@ int main(int argc, char **argv) {
     run_table("spmv", t_spmv, vf::tier(40, 600));
     run_table("vecops", t_vec, vf::tier(20, 300));
     run_table("mixed", t_mixed, vf::tier(40, 600));
+    std::vector<Ent> t_mixprec = { {"static_matrix<float,2,2> x double", mixprec_case<2>}, {"static_matrix<float,3,3> x double", mixprec_case<3>}, {"static_matrix<float,4,4> x double", mixprec_case<4>} };
+    run_table("mixprec", t_mixprec, vf::tier(40, 400));
     run_table("bcrs", t_bcrs, vf::tier(100, 2000));
     run_table("eigen", t_eigen, vf::tier(50, 1000));
     run_table("hybrid", t_hyb, vf::tier(80, 1200));
